@@ -18,6 +18,15 @@ BUF = ("TLC generates input sequences from spec/BufContract.tla (exhaustive BFS 
 BUFNOTE = ("bounds of spec/MC_BufContract.tla; BufContract is deliberately nondeterministic where the properties leave a "
            "choice; objects on one file are only used in a common buffered state; outside writes are always detectable; " + FAKES)
 
+THR = ("Small multi-threaded programs run on the real classes under a deterministic scheduler (real threads parked at lock "
+       "acquire/release, suspend-counter enter/exit, load/save, open/replace, buffer load/save/flush) for every schedule "
+       "within a preemption bound; every distinct recorded call/return history plus final file content is judged by TLC "
+       "against Lin.tla (linearizability with PyOps semantics). Threads.tla models the same steps; TLC checks it with the "
+       "flags describing the current code, must find a witness for every deviation flag, and its terminal behaviours are "
+       "replayed through the scheduler (matched synchronisation steps are counted).")
+THRNOTE = ("JSON backend only (the only one with threading support); preemption bound 2 at primitive granularity (line-level "
+           "in the thorough tier); locks are substituted by scheduler locks at import time; TLC, the scheduler and Lin/PyOps are trusted")
+
 CHECKS = {
     "C01": dict(
         technique="TLC enumeration of spec/PyOps.tla edges replayed on all 18 classes; raw resource compared",
@@ -75,6 +84,12 @@ CHECKS = {
                       "serialisation failures must leave the file untouched in every mode."),
                 note="process crashes only (no fsync/power-loss semantics); scenarios listed in harness/chk_save.py; JSON backend only (the property is about JSON files)",
                 design="5/C08"),
+    "C09": dict(technique="Threads.tla model-checked by TLC (locks, suspend counter, load/merge/save steps) + TLC behaviours replayed under a deterministic scheduler + recorded histories judged by TLC against Lin.tla",
+                category="model_checking", text=THR + " C09: pairs (thorough: triples) of writer threads over the full mutator menu, same object / two objects on one file / nested-child handles.",
+                note=THRNOTE, design="5/C09"),
+    "C10": dict(technique="Threads.tla model-checked by TLC with deadlock checking and fault actions; schedules replayed / explored under a deterministic scheduler; lock state inspected",
+                category="model_checking", text=THR + " C10: fault programs (unparsable file, rejected value, missing key, removed directory), lock-order programs (clear/reset vs setitem, buffered and not), filename re-pointing; a schedule with no runnable thread is a deadlock; afterwards every collection / class / buffer lock must be free.",
+                note=THRNOTE, design="5/C10"),
     "C11": dict(technique="TLC enumeration of forbidden-argument edges (MC_PyOps tier=forbid) replayed on all classes; memory and backend scanned",
                 category="model_checking",
                 text=("TLC enumerates every mutating entry point x forbidden item kind x position of the item inside the "
@@ -90,6 +105,12 @@ CHECKS = {
                       "is executed and read back through a fresh object, comparing structure and leaf types; abstract atoms "
                       "are concretised from pools of boundary scalars; random deeper values supplement (exploration)."),
                 note="byte-level scalar encoding only sampled through the pools; " + FAKES, design="5/C12"),
+    "C13": dict(technique="systematic schedule exploration of buffered mutator pairs under a deterministic scheduler; histories per file judged by TLC against Lin.tla; Threads.tla (Buffered) model-checked",
+                category="model_checking", text=THR + " C13: two threads of buffered mutators inside one buffer_backend(capacity in {large,0,1}) on distinct files, one object, or two objects on one file; no operation may raise, no deadlock, per-file linearizability after the exit, size 0, locks free.",
+                note=THRNOTE, design="5/C13"),
+    "C14": dict(technique="Threads.tla (lock-free readers as a deviation flag) model-checked by TLC; schedules explored/replayed under a deterministic scheduler; histories judged by TLC against Lin.tla",
+                category="model_checking", text=THR + " C14: one reader next to one writer on one object or two objects on one file, unbuffered and inside buffered contexts of both strategies, existing and missing files.",
+                note=THRNOTE + "; one open known finding (same-object reader/writer race) is reported as KNOWN-FINDING", design="5/C14"),
     "C15": dict(technique="TLC-generated inputs with capacity changes (BufContract.tla) executed; reported size/capacity validated by TLC (TraceBuf.tla)",
                 category="model_checking", text=BUF + ". C15: claimed clauses: reported size and capacity after every step.",
                 note=BUFNOTE + "; EncLen of the spec equals len(json.dumps) on the bounded atoms", design="5/C15"),
@@ -100,6 +121,23 @@ CHECKS = {
                       "unchanged; arguments are also passed as live synced children of the same tree and of another "
                       "collection and independence is checked both ways."),
                 note="bounds of spec/MC_PyOps.tla; " + FAKES, design="5/C16"),
+    "C18": dict(technique="Attr.tla edges (name class x get/set/del x attribute/item) enumerated by TLC and replayed with concrete names; reflective protected-name check; family type walk",
+                category="model_checking",
+                text=("Attr.tla states the routing of attribute access per name class and TLC checks its action properties on every "
+                      "edge; every edge is executed with concrete names (every protected name, dunders, method names, '_id', a "
+                      "non-identifier) on the 6 attribute-access dict classes at depth 0-2; instance attributes are enumerated by "
+                      "reflection; a no-load type walk of the in-memory tree after random operation / reload / buffered-context "
+                      "sequences checks the nested family for all 18 classes (C02's replay checks it at every navigation step)."),
+                note="writing to a name that is an existing class attribute is unspecified; one open known finding (test-pinned); " + FAKES,
+                design="5/C18"),
+    "C19": dict(technique="Resolver.tla (memo + blocklist) model-checked by TLC; all TLC-enumerated call histories replayed on the 7 real resolvers; end-to-end probes vs a fresh interpreter",
+                category="model_checking",
+                text=("Resolver.tla transcribes get_type (memo keyed by type, blocklist for instance-dependent types); TLC checks "
+                      "history independence for all call sequences over the abstract pool and produces the witness when the "
+                      "blocklist is dropped; every sequence is replayed on each module-level resolver and validation / conversion / "
+                      "merging outcomes after warm-up histories are compared with a fresh interpreter."),
+                note="numpy is absent: a minimal fake numpy module is injected to exercise instance-dependent arrays; late ABC registration excluded",
+                design="5/C19"),
     "C17": dict(technique="TLC-enumerated read edges + Contract/BufContract read-only behaviours replayed with write auditing; buffered traces validated by TLC",
                 category="model_checking",
                 text=("All read edges of MC_PyOps on existing and missing resources for all classes with an audit hook on "
